@@ -44,7 +44,7 @@ CLAIMED = {
         "note": "Partial: the general theorem no_collision -> model_expand isomorphic to doc_expand is stated but not proved "
                 "(checked per case by the verified validator); greedy (same language, maximal munch) has no theorem and is decided "
                 "on the impl against the expansion's forest. Imports, assignments and rule-level meta-data are not generated. "
-                "Known findings KF-C13-name-collision, KF-C13-greedy-sharing, KF-C13-greedy-possessive, KF-C13-collect-drops-none.",
+                "Known findings KF-C13-name-collision, KF-C13-greedy-sharing, KF-C13-greedy-possessive, KF-C13-greedy-not-maximal, KF-C13-collect-drops-none.",
         "technique": "Coq proofs over a Gallina model of the sugar front end + verified grammar-isomorphism validator run on the "
                      "impl's Grammar object + differential sugared-vs-expanded parsing",
         "design": "DESIGN.md section 7, C13",
